@@ -329,8 +329,10 @@ def _static_case(draw):
   for i in range(draw(st.integers(1, 5))):
     sp = draw(st.sampled_from(['full', 'full', 'short', 'bare', 'class_dot', 'unknown',
                                'unknown_mod']))
+    # whether a binding is accepted never depends on the value: falsy values included
     attempts.append([draw(st.sampled_from(APIS)), sp, draw(st.sampled_from(SCOPES)),
-                     draw(st.sampled_from(params)), 'A%d' % i])
+                     draw(st.sampled_from(params)),
+                     draw(st.sampled_from(['A%d' % i, 'A%d' % i, None, 0, '', False]))])
   case = {'shape': shape, 'prior': prior, 'attempts': attempts}
   if shape['kind'] == 'function' and draw(st.integers(0, 3)) == 0:
     # re-registration scenario: fixed selector c11m.pr, no finalize-hook paths (hooks would
